@@ -208,6 +208,14 @@ def harnesses(tier):
     for k in ('circle', 'ellipse', 'rectangle'):
         hs.append((f'annulus-area/{k}', P(h_annulus_area, k)))
     hs.append(('compound-misc', h_compound_misc))
+    from checks import C01, C15
+    for iname, inc in C01.INCLUDES:
+        hs.append((f'annulus-membership/circle/include={iname}', P(C01.h_annulus, 'circle', inc, 'scalar', 'deg')))
+        if not q or iname in ('absent', 'False'):
+            hs.append((f'annulus-membership/ellipse/include={iname}', P(C01.h_annulus, 'ellipse', inc, 'scalar', 'deg')))
+            hs.append((f'annulus-membership/rectangle/include={iname}', P(C01.h_annulus, 'rectangle', inc, 'scalar', 'deg')))
+    hs.append(('rotation-commutes/compound', C15.h_rotate_compound))
+    hs.append(('annulus-mask/circle/r<0.5', P(C02.h_annulus, 'circle', 'deg', 0.5)))
     if not q:
         for op in OPS:
             for ic in (None, False):
@@ -221,7 +229,7 @@ SHARDS = {}
 def cases(tier, seed):
     out = []
     for name, h in harnesses(tier):
-        k = 8 if name.startswith('mask/') else 1
+        k = 8 if name.startswith('mask/') else (2 if name.startswith('annulus-mask/') else 1)
         out += chk.sharded('C08', name, h, k, max_paths=4000)
     return out
 
